@@ -219,3 +219,15 @@ Proof.
   inversion H as [|? ? _ Hall]; subst. inversion Hall as [|? ? Hle _]; subst.
   vm_compute in Hle. apply Hle. reflexivity.
 Qed.
+
+(* since /repo 317aec4 check_cache re-orders what it read by the run starts: whatever the frontend did to
+   the order, the sub-runs are chained in order of run start *)
+Lemma chained_spec_sorted start_of data :
+  StronglySorted (fun a b => start_of a <= start_of b) (chained_spec start_of data).
+Proof. apply (sort_by_sorted start_of). Qed.
+
+Lemma chained_spec_perm start_of data : Permutation (chained_spec start_of data) (dedup data).
+Proof. unfold chained_spec. rewrite sort_by_perm. apply sub_run_spec_perm. Qed.
+
+Example chained_spec_f1_example : chained_spec start_f1 [2; 1] = [2; 1] /\ sub_run_spec start_f1 [2; 1] = [1; 2].
+Proof. vm_compute. split; reflexivity. Qed.
